@@ -178,6 +178,14 @@ def run(ctx: Ctx) -> None:
         okh = classes <= got and all(any(call_name(c) == "self.protocol.handle" and c.args and "Closed()" in norm(c.args[0]) for c in calls(h)) for h in hs)
         ctx.check("C08.R5", w, f"write failure ({'/'.join(sorted(classes))}) -> protocol.handle(Closed())", bool(hs) and okh, f"handlers catch {sorted(got)}; a failed/closed transport must be reported to the protocol instead of raising into the application", hs[0] if hs else arm)
 
+    # R4 (cont.): the reader reports the end of the connection to the protocol on every exit
+    for mod in ("asyncio.tcp_server", "trio.tcp_server"):
+        rdf = repo.func(mod, "TCPServer._read_data")
+        grd = CFG(rdf)
+        closed_call = has_stmt(lambda n: isinstance(n, ast.Call) and call_name(n) == "self.protocol.handle" and n.args and "Closed()" in norm(n.args[0]))
+        wit = grd.must_pass(grd.entry, [grd.exit], closed_call)
+        ctx.check("C08.R4", f"{mod}:TCPServer._read_data", "every normal exit of the read loop tells the protocol Closed", wit is None, "the read loop can end (e.g. on a connection reset) without protocol.handle(Closed()): sends waiting on flow control are never released: " + explain(grd, wit), rdf)
+
     # R6
     ss = repo.func(M, "H2Protocol.stream_send")
     arm = arm_for(ss, "event", "EndBody")
@@ -224,6 +232,11 @@ def run(ctx: Ctx) -> None:
                 if d in ("self.send", "self.protocol.handle", "self.stream.handle", "self._send_h11_event", "self._send_wsproto_event", "self._flush", "self.app_put") or d.endswith(".push") and "stream_buffers" in norm(c.func) or d.endswith(".drain"):
                     n += 1
                     ctx.check("C08.R8", f"{mod}:{cls}.{name}", f"await {norm(c.func)}(..)@{_ord(fn, c)}", isinstance(getattr(c, "_parent", None), ast.Await), f"{norm(c)[:60]} is not awaited: the caller continues before the data was accepted", c)
+
+    from ..core import Alias
+    from . import c09
+
+    c09.run(Alias(ctx, "C08.R9", "pressure abates => the waiting send is released: WINDOW_UPDATE (stream-level, connection-level stream 0, SETTINGS) and RST_STREAM reach unblock + wake-up, and the send task re-consults the tree (same analysis as C09.R3/R4/R6)", only={"C09.R3", "C09.R4", "C09.R6"}))
 
     ctx.assume("not decided: the numeric bound itself, fairness between streams, promptness of release; asyncio StreamWriter.drain / trio send_all semantics are trusted")
     ctx.assume("invariant used (exempt site): a stream unblocked in the priority tree always has an entry in stream_buffers, so the lookup inside _send_data's handler cannot raise")
